@@ -104,7 +104,14 @@ fn check_for_boolean_directive(
 
     let mut first_line = true;
 
-    for line in code[..subject_pos + 1].lines().rev()
+    /* Include the whole first character of the log statement, which may be longer than a byte. */
+    let subject_end = subject_pos
+        + code[subject_pos..]
+            .chars()
+            .next()
+            .map_or(0, |c| c.len_utf8());
+
+    for line in code[..subject_end].lines().rev()
     {
         if first_line
         {
